@@ -1344,9 +1344,9 @@ def m_deepcopy(ip, st, args, kwargs):
     return deep_copy(ip, st, args[0], {})
 
 
-def deep_copy(ip, st, v, memo):
+def deep_copy(ip, st, v, memo, engine=False):
     if isinstance(v, tuple):
-        return tuple(deep_copy(ip, st, x, memo) for x in v)
+        return tuple(deep_copy(ip, st, x, memo, engine) for x in v)
     if isinstance(v, Ref):
         if v.oid in memo:
             return memo[v.oid]
@@ -1355,25 +1355,25 @@ def deep_copy(ip, st, v, memo):
             r = st.alloc(LObj(None, p.sym, p.elty, p.kind) if p.items is None else LObj([], None, p.elty, p.kind))
             memo[v.oid] = r
             if p.items is not None:
-                st.get(r).items.extend(deep_copy(ip, st, x, memo) for x in p.items)
+                st.get(r).items.extend(deep_copy(ip, st, x, memo, engine) for x in p.items)
             return r
         if isinstance(p, DObj):
             r = st.alloc(DObj({}))
             memo[v.oid] = r
             for k, x in p.d.items():
-                st.get(r).d[k] = deep_copy(ip, st, x, memo)
+                st.get(r).d[k] = deep_copy(ip, st, x, memo, engine)
             return r
         if isinstance(p, SetObj):
             r = st.alloc(SetObj(list(p.s)))
             memo[v.oid] = r
             return r
         if isinstance(p, Obj):
-            if not p.cls.startswith('<') and ip.repo.class_member(p.cls, '__getstate__'):
+            if not engine and not p.cls.startswith('<') and ip.repo.class_member(p.cls, '__getstate__'):
                 raise Unsupported('deepcopy of object with __getstate__ (%s): needs a contract' % p.cls)
             r = st.alloc(Obj(p.cls, {}))
             memo[v.oid] = r
             for k, x in p.f.items():
-                st.get(r).f[k] = deep_copy(ip, st, x, memo)
+                st.get(r).f[k] = deep_copy(ip, st, x, memo, engine)
             return r
     return v
 
